@@ -286,6 +286,13 @@ def pair_distribute(ctx, rule: str) -> None:
     rv, av = res(rb, "volume", R), res(ab, "volumes", add)
     ctx.rep.check(is_name(rv, "volume") and is_name(av, "volume"), rule, f"{cbase}/volume", "record volume and per-well added volume are the `volume` argument",
                   f"record volume `{show(rv)}` / added per-well volume `{show(av)}` are not both the `volume` argument", where=w)
+    # the remaining arguments of the record are distribute's own arguments, handed through unchanged
+    for k in ("diti_reuse", "multi_disp", "liquid_class", "direction", "src_rack_id", "src_rack_type", "dst_rack_id", "dst_rack_type"):
+        if k not in f.params:
+            continue
+        t = res(rb, k, R)
+        ctx.rep.check(t is not None and is_name(t, k), rule, f"{cbase}/forward[{k}]", f"`{k}` is handed to the record unchanged",
+                      f"the record is built with {k}=`{show(t)[:40] if t is not None else 'the default of reagent_distribution'}` instead of the `{k}` given to distribute", where=w)
     # destination wells
     aw = res(ab, "wells", add)
     DWparam = strip_norm(aw)
